@@ -21,7 +21,7 @@ func init() {
 	fw.Register(&fw.Property{
 		ID:    "C13",
 		Level: "exploration",
-		Rule: "ENUMERATED size classes x log shapes: shape {empty, chain, chain of only big entries (snapshot spans several 256 KiB UnixFS chunks), fork (2 concurrent writers), 3 writers, containing replicated entries, replication in progress (remote fetches held by the gate so the replicator queue is non-empty at save time), replication in progress whose missing entries stay unreachable afterwards (partition), local writes and merges landing while SaveSnapshot runs} x largest payload {0, 1, 1 KiB, 27/36/37/47/48/49 KiB (entry JSON around 65535 bytes after one or two base64 layers), 60 KiB, ~64 KiB, 70 KiB, 200 KiB, 300 KiB; jittered by +-300 bytes in the thorough tier} x store type, with kubo's real UnixFS chunker/reader. SaveSnapshot is called on the live store; when it returns nil a FRESH instance on the same directory calls LoadFromSnapshot (not Load). " +
+		Rule: "ENUMERATED size classes x log shapes: shape {empty, chain, chain of only big entries (snapshot spans several 256 KiB UnixFS chunks), fork (2 concurrent writers), 3 writers, containing replicated entries, replication in progress (remote fetches held by the gate so the replicator queue is non-empty at save time), replication in progress whose missing entries stay unreachable afterwards (partition), local writes and merges landing while SaveSnapshot runs, a second handle of the database saving after the first handle (which shares its cache) was closed} x largest payload {0, 1, 1 KiB, 27/36/37/47/48/49 KiB (entry JSON around 65535 bytes after one or two base64 layers), 60 KiB, ~64 KiB, 70 KiB, 200 KiB, 300 KiB; jittered by +-300 bytes in the thorough tier} x store type, with kubo's real UnixFS chunker/reader. SaveSnapshot is called on the live store; when it returns nil a FRESH instance on the same directory calls LoadFromSnapshot (not Load). " +
 			"distinct = (shape, size class, store type, entries); non-trivial = log non-empty or shape is 'empty' (the empty log is a named case), and SaveSnapshot returned (error or nil) without dying",
 		Assumptions: []string{"the snapshot is reloaded by the same peer (its blocks are local)", "entries still being replicated at save time may or may not be in the reloaded state; everything in the log at save time must be"},
 		Cases:       c13Cases,
@@ -33,7 +33,7 @@ func init() {
 	})
 }
 
-var c13Shapes = []string{"empty", "chain", "chain-all-big", "fork", "three-writers", "replicated", "in-progress", "in-progress-then-partition", "writes-during-save"}
+var c13Shapes = []string{"empty", "chain", "chain-all-big", "fork", "three-writers", "replicated", "in-progress", "in-progress-then-partition", "writes-during-save", "sibling-closed"}
 var c13Sizes = []int{0, 1, 1024, 27 * 1024, 36 * 1024, 37 * 1024, 47 * 1024, 48 * 1024, 49 * 1024, 60 * 1024, 65535 - 300, 65535, 70 * 1024, 200 * 1024, 300 * 1024}
 
 func c13Cases(tier string, seed int64) []fw.Case {
@@ -49,6 +49,9 @@ func c13Cases(tier string, seed int64) []fw.Case {
 			for zi, size := range c13Sizes {
 				if shape == "empty" && zi > 0 {
 					continue
+				}
+				if shape == "sibling-closed" && zi >= 4 {
+					continue // the payload size is irrelevant here
 				}
 				if shape == "writes-during-save" && zi >= 8 {
 					continue // the payload size is irrelevant here: 8 cases with small payloads and a long log
@@ -95,7 +98,7 @@ func c13Run(c fw.Case) fw.Verdict {
 		return fw.Verdict{Status: fw.Inconclusive, What: err.Error()}
 	}
 	var others []*sim.Peer
-	nOthers := map[string]int{"in-progress-then-partition": 1, "writes-during-save": 1, "empty": 0, "chain": 0, "chain-all-big": 0, "fork": 1, "three-writers": 2, "replicated": 1, "in-progress": 1}[shape]
+	nOthers := map[string]int{"sibling-closed": 0, "in-progress-then-partition": 1, "writes-during-save": 1, "empty": 0, "chain": 0, "chain-all-big": 0, "fork": 1, "three-writers": 2, "replicated": 1, "in-progress": 1}[shape]
 	for i := 0; i < nOthers; i++ {
 		o, err := e.W.AddPeer(sim.PeerOpts{})
 		if err != nil {
@@ -161,6 +164,27 @@ func c13Run(c fw.Case) fw.Verdict {
 		e.W.Flush()
 		_ = write(sP, n, 10)
 		e.W.Flush()
+	case "sibling-closed":
+		for k := 0; k < n; k++ {
+			if err := write(sP, k, size); err != nil {
+				return fw.Verdict{Status: fw.Inconclusive, What: "write: " + err.Error()}
+			}
+		}
+		// a second handle of the same database in the same instance (they share the cache); the first one
+		// is closed before the second one saves its snapshot
+		octx, ocancel := context.WithTimeout(bg, 20*time.Second)
+		sib, err := P.DB.Open(octx, db.Addr, &iface.CreateDBOptions{})
+		ocancel()
+		if err != nil {
+			return fw.Verdict{Status: fw.Inconclusive, What: "sibling handle: " + err.Error()}
+		}
+		P.Track(sib)
+		defer sib.Close()
+		if err := sib.Load(bg, -1); err != nil {
+			return fw.Verdict{Status: fw.Inconclusive, What: "sibling load: " + err.Error()}
+		}
+		_ = sP.Close()
+		sP = sib
 	case "writes-during-save":
 		for k := 0; k < 150+n; k++ { // a long log: serialising it takes long enough for writes to land meanwhile
 			if err := write(sP, k, rng.Intn(40)); err != nil {
